@@ -44,6 +44,13 @@ SUITES["admin"] = dict(
     batches={"quick": 4, "thorough": 16}, timeout={"quick": 300, "thorough": 3000},
 )
 
+SUITES["writer"] = dict(
+    test="TestWriter", coq_module="Cases.WriterCase", case_type="wr_case", eval="eval_wr_case",
+    cols=["diff", "mon_c14_bound", "mon_c14_request", "mon_c14_transparent", "mon_c15_decodes", "mon_c15_only_if",
+          "mon_c15_plain_identical", "nt_c14", "nt_c15"],
+    batches={"quick": 8, "thorough": 16}, timeout={"quick": 400, "thorough": 3000},
+)
+
 PROPS = {
     "C09": dict(
         props_file="Props/C09.v",
@@ -236,6 +243,47 @@ PROPS["C10"] = dict(
                "(the harness passes parsed forms); ServeMux path matching is validated by the runs (unknown paths only checked to serve nothing).",
     trusted_base=["Model/Admin.v (hand-written; tied by the admin suite)", "Go address / JSON / URL parsers as oracles"],
     assumptions=["requests are driven through mux.ServeHTTP with RemoteAddr set as net/http sets it"],
+)
+
+_WR_NOTE = ("Trusted: Coq kernel, harness (raw TCP client, scripted handler), Model/RespWriter.v: a hand model of the http.ResponseWriter "
+            "contract of net/http (header snapshot at commit, implicit 200, 1xx interim, body-less statuses, 304 header suppression) which "
+            "is itself under correspondence on every run because each case is also served without any plugin. Bodies are prefixes of "
+            "one deterministic byte stream and are represented by their length; the harness checks the received bytes are that prefix. "
+            "compress/gzip and http.MaxBytesReader are libraries (modelled, validated by the runs). Compressed sizes are not modelled.")
+PROPS["C14"] = dict(
+    props_file="Props/C14.v",
+    suites=[dict(suite="writer", corr=["diff"], monitors=["mon_c14_bound", "mon_c14_request", "mon_c14_transparent"],
+                 classifiers={}, nontrivial="nt_c14")],
+    rule="plugin chains (size_limit alone, with logging before/after, with gzip inside/outside) around a scripted handler over real "
+         "connections: response limits 1..48 with bodies limit-1 / limit / limit+1 / far beyond / 0 in every partition into writes, "
+         "statuses with and without bodies (200 201 202 204 301 302 304 400 404 500 503), implicit / explicit WriteHeader, 103 interim, "
+         "Flush positions, declared and absent Content-Length, late WriteHeader; request limits 1..32 with declared and chunked bodies "
+         "of limit-1 / limit / limit+1 / +9; each exchange also made directly (differential); non-trivial = body within 1 of the limit, "
+         "a body-less status, or >= 2 writes; distinct = by case hash",
+    level_text="Theorems: for every call sequence of a handler the client-side body is <= max_response_body (invariant coupling the wrapper "
+               "with the writer below it, proved for all reachable states); 413 when the excess is found before anything was sent and "
+               "nothing forwarded afterwards; request gate: rejected exactly for a declared length above the limit, otherwise at most "
+               "max_request_body bytes readable and all of them when within the limit. PARTIAL: transparency within limits is decided by "
+               "the differential monitor on every implementation run, its simulation proof is not done.",
+    level_note=_WR_NOTE, trusted_base=["Model/RespWriter.v (hand-written; tied by the writer suite incl. the direct exchange)"],
+    assumptions=["HTTP/1.1 over loopback sockets; HTTP/2 not exercised"],
+)
+PROPS["C15"] = dict(
+    props_file="Props/C15.v",
+    suites=[dict(suite="writer", corr=["diff"], monitors=["mon_c15_decodes", "mon_c15_only_if", "mon_c15_plain_identical"],
+                 classifiers={}, nontrivial="nt_c15")],
+    rule="gzip plugin (alone, after logging, inside / outside size_limit) over real connections with a raw client that does not "
+         "decode: 13 Accept-Encoding spellings (absent, gzip, lists, q-values, case, spaces, look-alikes), 7 content types x 5 configured "
+         "prefixes, min_size 0/1/8/16/24/40 with bodies min-1 / min / min+1, declared vs absent Content-Length, levels -1..9 given as "
+         "float or int, already-encoded responses, Flush mid-body, body-less statuses, HEAD; non-trivial = gzip in the chain and the "
+         "request lists gzip; distinct = by case hash",
+    level_text="Theorems: without a gzip token the plugin is the identity; a compressed payload is produced only at the end of an "
+               "unstreamed exchange and only for a non-empty, not yet encoded body of >= min_size (declared and actual) whose content "
+               "type matches a configured prefix. PARTIAL: 'decoding what the client receives under the headers it receives yields the "
+               "backend body with the backend status' is decided on every implementation run (the harness gunzips the raw bytes), its "
+               "simulation proof is not done; the 10 MB buffering cap is only exercised in the thorough tier.",
+    level_note=_WR_NOTE, trusted_base=["Model/RespWriter.v (hand-written; tied by the writer suite incl. the direct exchange)"],
+    assumptions=["gunzip(gzip(b)) = b (compress/gzip)", "HTTP/1.1 over loopback sockets"],
 )
 
 # properties not claimed, each with a one-line reason (kept current as checks are added)
